@@ -447,8 +447,11 @@ func (c *consumer) run() {
 	var n int64
 	for evt := range c.node.Events() {
 		n++
-		if c.pace != nil {
-			c.pace(n)
+		c.mu.Lock()
+		pace := c.pace
+		c.mu.Unlock()
+		if pace != nil {
+			pace(n)
 		}
 		c.handle(evt)
 	}
